@@ -73,6 +73,12 @@ class BitStore:
                     f"Can't create bitstring with a length of {x.modified_length} from {len(x._bitarray)} bits of data.")
         return x
 
+    def _logical(self) -> bitarray.bitarray:
+        """The bits as a bitarray, honouring the length limit of a buffer-backed store."""
+        if self.modified_length is not None:
+            return self._bitarray[:self.modified_length]
+        return self._bitarray
+
     def setall(self, value: int, /) -> None:
         self._bitarray.setall(value)
 
@@ -97,7 +103,7 @@ class BitStore:
         return bitarray.util.ba2base(8, self.getslice(start, end)._bitarray)
 
     def __iadd__(self, other: BitStore, /) -> BitStore:
-        self._bitarray += other._bitarray
+        self._bitarray += other._logical()
         return self
 
     def __add__(self, other: BitStore, /) -> BitStore:
@@ -106,32 +112,32 @@ class BitStore:
         return bs
 
     def __eq__(self, other: Any, /) -> bool:
-        return self._bitarray == other._bitarray
+        return self._logical() == other._logical()
 
     def __and__(self, other: BitStore, /) -> BitStore:
-        return BitStore(self._bitarray & other._bitarray)
+        return BitStore(self._logical() & other._logical())
 
     def __or__(self, other: BitStore, /) -> BitStore:
-        return BitStore(self._bitarray | other._bitarray)
+        return BitStore(self._logical() | other._logical())
 
     def __xor__(self, other: BitStore, /) -> BitStore:
-        return BitStore(self._bitarray ^ other._bitarray)
+        return BitStore(self._logical() ^ other._logical())
 
     def __iand__(self, other: BitStore, /) -> BitStore:
-        self._bitarray &= other._bitarray
+        self._bitarray &= other._logical()
         return self
 
     def __ior__(self, other: BitStore, /) -> BitStore:
-        self._bitarray |= other._bitarray
+        self._bitarray |= other._logical()
         return self
 
     def __ixor__(self, other: BitStore, /) -> BitStore:
-        self._bitarray ^= other._bitarray
+        self._bitarray ^= other._logical()
         return self
 
     def find(self, bs: BitStore, start: int, end: int, bytealigned: bool = False) -> int:
         if not bytealigned:
-            return self._bitarray.find(bs._bitarray, start, end)
+            return self._bitarray.find(bs._logical(), start, end)
         try:
             return next(self.findall_msb0(bs, start, end, bytealigned))
         except StopIteration:
@@ -139,7 +145,7 @@ class BitStore:
 
     def rfind(self, bs: BitStore, start: int, end: int, bytealigned: bool = False):
         if not bytealigned:
-            return self._bitarray.find(bs._bitarray, start, end, right=True)
+            return self._bitarray.find(bs._logical(), start, end, right=True)
         try:
             return next(self.rfindall_msb0(bs, start, end, bytealigned))
         except StopIteration:
@@ -164,7 +170,7 @@ class BitStore:
                 byte_pos = byte_pos + 1
             return
         # General case
-        i = self._bitarray.search(bs._bitarray, start, end)
+        i = self._bitarray.search(bs._logical(), start, end)
         if not bytealigned:
             for p in i:
                 yield p
@@ -174,7 +180,7 @@ class BitStore:
                     yield p
 
     def rfindall_msb0(self, bs: BitStore, start: int, end: int, bytealigned: bool = False) -> Iterator[int]:
-        i = self._bitarray.search(bs._bitarray, start, end, right=True)
+        i = self._bitarray.search(bs._logical(), start, end, right=True)
         if not bytealigned:
             for p in i:
                 yield p
@@ -184,7 +190,7 @@ class BitStore:
                     yield p
 
     def count(self, value, /) -> int:
-        return self._bitarray.count(value)
+        return self._logical().count(value)
 
     def clear(self) -> None:
         self._bitarray.clear()
@@ -198,7 +204,7 @@ class BitStore:
 
     def _copy(self) -> BitStore:
         """Always creates a copy, even if instance is immutable."""
-        return BitStore(self._bitarray)
+        return BitStore(self._logical())
 
     def copy(self) -> BitStore:
         return self if self.immutable else self._copy()
@@ -208,6 +214,8 @@ class BitStore:
         raise NotImplementedError
 
     def getindex_msb0(self, index: int, /) -> bool:
+        if self.modified_length is not None:
+            index = range(self.modified_length)[index]
         return bool(self._bitarray.__getitem__(index))
 
     def getslice_withstep_msb0(self, key: slice, /) -> BitStore:
@@ -217,7 +225,7 @@ class BitStore:
 
     def getslice_withstep_lsb0(self, key: slice, /) -> BitStore:
         key = offset_slice_indices_lsb0(key, len(self))
-        return BitStore(self._bitarray.__getitem__(key))
+        return BitStore(self._logical().__getitem__(key))
 
     def getslice_msb0(self, start: Optional[int], stop: Optional[int], /) -> BitStore:
         if self.modified_length is not None:
@@ -228,10 +236,10 @@ class BitStore:
 
     def getslice_lsb0(self, start: Optional[int], stop: Optional[int], /) -> BitStore:
         s = offset_slice_indices_lsb0(slice(start, stop, None), len(self))
-        return BitStore(self._bitarray[s.start:s.stop])
+        return BitStore(self._logical()[s.start:s.stop])
 
     def getindex_lsb0(self, index: int, /) -> bool:
-        return bool(self._bitarray.__getitem__(-index - 1))
+        return self.getindex_msb0(-index - 1)
 
     @overload
     def setitem_lsb0(self, key: int, value: int, /) -> None:
@@ -245,7 +253,7 @@ class BitStore:
         if isinstance(key, slice):
             new_slice = offset_slice_indices_lsb0(key, len(self))
             if isinstance(value, BitStore):
-                value = value._bitarray
+                value = value._logical()
             self._bitarray.__setitem__(new_slice, value)
         else:
             self._bitarray.__setitem__(-key - 1, value)
@@ -270,17 +278,17 @@ class BitStore:
             self._bitarray.invert()
 
     def any_set(self) -> bool:
-        return self._bitarray.any()
+        return self._logical().any()
 
     def all_set(self) -> bool:
-        return self._bitarray.all()
+        return self._logical().all()
 
     def __len__(self) -> int:
         return self.modified_length if self.modified_length is not None else len(self._bitarray)
 
     def setitem_msb0(self, key, value, /):
         if isinstance(value, BitStore):
-            self._bitarray.__setitem__(key, value._bitarray)
+            self._bitarray.__setitem__(key, value._logical())
         else:
             self._bitarray.__setitem__(key, value)
 
